@@ -99,6 +99,33 @@ def is_bool(n):
     return qt(n).replace('const ', '').strip() == 'bool'
 
 
+INT_SUFFIX = {'unsigned char': 'u8', 'signed char': 'i8', 'char': 'i8', 'short': 'i16', 'unsigned short': 'u16', 'int': 'i32', 'unsigned int': 'u32',
+              'long': 'i64', 'unsigned long': 'u64', 'long long': 'i64', 'unsigned long long': 'u64'}
+
+
+def int_suffix(n):
+    q = qt(n).replace('const ', '').replace('volatile ', '').strip()
+    if q not in INT_SUFFIX:
+        raise Unsupported('int_model: integral type %s' % q)
+    return INT_SUFFIX[q]
+
+
+def is_assert_expansion(s):
+    while s['kind'] == 'ParenExpr':
+        s = s['inner'][0]
+    if s['kind'] != 'ConditionalOperator' or len(s.get('inner', [])) != 3:
+        return False
+    c = s['inner'][2]
+    while c['kind'] in TRANSPARENT:
+        c = c['inner'][0]
+    if c['kind'] != 'CallExpr':
+        return False
+    f = c['inner'][0]
+    while f['kind'] in TRANSPARENT:
+        f = f['inner'][0]
+    return (f.get('referencedDecl') or {}).get('name') == '__assert_fail'
+
+
 class Tr:
     def __init__(self, fn, unit):
         self.fn, self.unit = fn, unit
@@ -143,6 +170,10 @@ class Tr:
                 raise Unsupported('FloatingToBoolean')
             if ck == 'IntegralCast' and is_bool(n['inner'][0]):
                 return '(Z.b2z %s)' % inner
+            if ck == 'IntegralCast' and self.unit.get('int_model'):
+                # unit option int_model (C09): integral conversions are kept, (cast_<t> x) = x wrapped into the range of the
+                # target type (two's complement); the prelude gives cast_u8 / cast_i32 / cast_u32 / cast_i64 / cast_u64 ...
+                return '(cast_%s %s)' % (int_suffix(n), inner)
             return inner
         if k == 'DeclRefExpr':
             rd = n['referencedDecl']
@@ -212,6 +243,9 @@ class Tr:
                 return '(%s %s %s)' % (BIN_D[op], self.expr(a), self.expr(b))
             if is_bool(a) and is_bool(b) and op in ('==', '!='):
                 return '(%s %s %s)' % ('Bool.eqb' if op == '==' else 'xorb', self.expr(a), self.expr(b))
+            if op in ('<<', '+', '-', '*') and self.unit.get('int_model'):
+                # unit option int_model: the result of an operation that can leave the range of its type is wrapped into it
+                return '(cast_%s (%s %s %s))' % (int_suffix(n), BIN_Z[op], self.expr(a), self.expr(b))
             if op in BIN_Z:
                 return '(%s %s %s)' % (BIN_Z[op], self.expr(a), self.expr(b))
             raise Unsupported('binop ' + op)
@@ -286,10 +320,18 @@ class Tr:
 
     # ------------------------------------------------------------ statements (CPS; k : () -> str)
     def ret(self, e=None):
+        if self.isvoid and self.unit.get('returns_param'):
+            # unit option returns_param (C09): a void function that writes through a pointer parameter (buf[i] = e ==> upd)
+            # yields the final value of that parameter
+            return 'v_' + self.unit['returns_param']
         if self.isvoid and self.unit.get('effects'):
             return '(ok st)'
         if self.isvoid:
             return 'st'
+        if self.unit.get('out_params'):
+            # unit option out_params (C20): a non-void function that writes through reference parameters yields
+            # (final values of those parameters ..., return value)
+            return '(%s, %s)' % (', '.join('v_' + p for p in self.unit['out_params']), e)
         if self.mutates:
             return '(st, %s)' % e
         return e
@@ -307,6 +349,14 @@ class Tr:
             if base['kind'] == 'DeclRefExpr':
                 v = 'v_' + base['referencedDecl']['name']
                 return '(let %s := set_%s %s %s in\n %s)' % (v, lhs['name'], v, e, cont())
+            if base['kind'] == 'MemberExpr':
+                b2 = base['inner'][0]
+                while b2['kind'] in TRANSPARENT:
+                    b2 = b2['inner'][0]
+                if b2['kind'] == 'CXXThisExpr':
+                    # field of a class-typed data member:  this->m.f = e  ==>  set_m st (set_f (f_m st) e)   (C20 Centroid: cg3.x += ...)
+                    self.uses_this = True
+                    return '(let st := set_%s st (set_%s (f_%s st) %s) in\n %s)' % (base['name'], lhs['name'], base['name'], e, cont())
         if lhs['kind'] == 'DeclRefExpr' and lhs['referencedDecl']['name'] in self.unit.get('globals', ()) and lhs['referencedDecl']['name'] not in self.locals:
             self.uses_this = True; self.mutates = True
             return '(let st := set_g_%s st %s in\n %s)' % (lhs['referencedDecl']['name'], e, cont())
@@ -329,7 +379,39 @@ class Tr:
             if a['kind'] == 'DeclRefExpr':
                 v = 'v_' + a['referencedDecl']['name']
                 return '(let %s := upd %s %s %s in\n %s)' % (v, v, self.expr(i), e, cont())
+        px = self._proxy_elem(lhs)
+        if px is not None:
+            # element of a std::vector<bool> (or other class with operator[]) written through its proxy:  v[k] = e  (C18)
+            obj, ix = px
+            if obj['kind'] == 'MemberExpr':
+                self.uses_this = True
+                return '(let st := set1_%s st %s %s in\n %s)' % (obj['name'], self.expr(ix), e, cont())
+            v = 'v_' + obj['referencedDecl']['name']
+            return '(let %s := upd %s %s %s in\n %s)' % (v, v, self.expr(ix), e, cont())
         raise Unsupported('assignment to ' + lhs['kind'])
+
+    def _proxy_elem(self, lhs):
+        """lhs = <this-member or local>.operator[](index)  ->  (object node, index node), else None"""
+        while lhs['kind'] in TRANSPARENT:
+            lhs = lhs['inner'][0]
+        if lhs['kind'] != 'CXXOperatorCallExpr' or len(lhs.get('inner', [])) != 3:
+            return None
+        callee = lhs['inner'][0]
+        while callee['kind'] in TRANSPARENT:
+            callee = callee['inner'][0]
+        if (callee.get('referencedDecl') or {}).get('name') != 'operator[]':
+            return None
+        obj = lhs['inner'][1]
+        while obj['kind'] in TRANSPARENT:
+            obj = obj['inner'][0]
+        if obj['kind'] == 'MemberExpr':
+            b = obj['inner'][0]
+            while b['kind'] in TRANSPARENT:
+                b = b['inner'][0]
+            return (obj, lhs['inner'][2]) if b['kind'] == 'CXXThisExpr' else None
+        if obj['kind'] == 'DeclRefExpr' and obj['referencedDecl']['name'] in self.locals:
+            return (obj, lhs['inner'][2])
+        return None
 
     def stmts(self, lst, k):
         if not lst:
@@ -407,6 +489,11 @@ class Tr:
             nm = self.callname('m', callee['name'], len(args))
             if base['kind'] == 'CXXThisExpr' and callee['name'] == self.selfname and len(args) == len(self.params) and callee.get('referencedMemberDecl') not in self.selfids:
                 nm = self.callname('m_base', callee['name'], len(args))
+            if base['kind'] == 'CXXThisExpr' and callee['name'] == self.selfname and len(args) == len(self.params) \
+                    and callee.get('referencedMemberDecl') in self.selfids and self.unit.get('void_selfrec'):
+                # unit option void_selfrec: a void member calling itself as a statement (open recursion on fuel, state threaded)  (C18)
+                self.uses_this = True; self.mutates = True; self.selfrec = True
+                return '(let st := self st%s in\n %s)' % (''.join(' ' + a for a in args), cont())
             if base['kind'] == 'CXXThisExpr':
                 self.uses_this = True; self.mutates = True
                 return '(let st := %s st%s in\n %s)' % (nm, ''.join(' ' + a for a in args), cont())
@@ -477,6 +564,10 @@ class Tr:
             return self.while_stmt(s, cont)
         if kind == 'NullStmt':
             return cont()
+        if kind == 'ContinueStmt' and getattr(self, 'loop_tups', None):
+            return self.loop_tups[-1]      # inside a counted for (fold): the rest of the body is skipped, the carried values are yielded
+        if kind in ('ParenExpr', 'ConditionalOperator') and qt(s) == 'void' and self.unit.get('int_model') and is_assert_expansion(s):
+            return cont()        # glibc's expansion of assert(e): (static_cast<bool>(e) ? void(0) : __assert_fail(...)) — no effect on the model
         if kind == 'CStyleCastExpr' and qt(s) == 'void':
             return cont()        # (void)unused;
         if kind == 'CXXThrowExpr' and self.unit.get('effects'):
@@ -501,6 +592,17 @@ class Tr:
                 if n2 in self.unit.get('globals', ()) and len(s['inner']) == 1:
                     self.uses_this = True; self.mutates = True
                     return '(bind (call_g_%s st) (fun st =>\n %s))' % (n2, cont())
+            if kind == 'CallExpr' and name in self.unit.get('ref_calls', {}):
+                # unit option ref_calls {function: [positions of non-const reference arguments]} (C20): the callee is a unit that
+                # yields the final value of its reference parameter (returns_param); ALL arguments are passed, the result is
+                # assigned to the argument lvalue (a local or a data member of this):
+                #   f(a, b, o);   ==>   o := c_f_3 a b o
+                idxs = list(self.unit['ref_calls'][name]); cargs = [a for a in s['inner'][1:] if a['kind'] != 'CXXDefaultArgExpr']
+                if len(idxs) != 1:
+                    raise Unsupported('ref_calls: exactly one reference argument is supported')
+                call = '(%s%s)' % (self.callname('c', name, len(cargs)), ''.join(' ' + self.expr(a) for a in cargs))
+                self.mutates = self.mutates or self._is_this_lhs(cargs[idxs[0]])
+                return self.lhs_assign(cargs[idxs[0]], call, cont)
             if kind == 'CallExpr' and name in self.unit.get('out_calls', {}):
                 # unit option out_calls {function: [argument positions that are output references]} (C06):
                 #   f(a, o1, o2);   ==>   let '(v_o1, v_o2) := c_f_<number of inputs> a in ...
@@ -528,6 +630,9 @@ class Tr:
         raise Unsupported('stmt ' + kind)
 
     def _is_this_lhs(self, lhs):
+        px = self._proxy_elem(lhs)
+        if px is not None:
+            return px[0]['kind'] == 'MemberExpr'
         while lhs['kind'] in TRANSPARENT or lhs['kind'] == 'ArraySubscriptExpr':
             lhs = lhs['inner'][0]
         return lhs['kind'] == 'MemberExpr' and lhs['inner'][0]['kind'] == 'CXXThisExpr'
@@ -545,7 +650,23 @@ class Tr:
                 b = lhs['inner'][0]
                 while b['kind'] in TRANSPARENT:
                     b = b['inner'][0]
+                if b['kind'] == 'MemberExpr':      # this->m.f = e (formerly '?': such a loop was Unsupported)
+                    b = b['inner'][0]
+                    while b['kind'] in TRANSPARENT:
+                        b = b['inner'][0]
+                    b = b if b['kind'] == 'CXXThisExpr' else {'kind': '?'}
                 acc.add('st' if b['kind'] == 'CXXThisExpr' else ('v_' + b['referencedDecl']['name'] if b['kind'] == 'DeclRefExpr' else '?'))
+        if k == 'CallExpr' and self.unit.get('ref_calls'):
+            # unit option ref_calls: see stmts(); the reference arguments are assigned
+            c0 = n['inner'][0]
+            while c0['kind'] in TRANSPARENT:
+                c0 = c0['inner'][0]
+            nm0 = (c0.get('referencedDecl') or {}).get('name', '')
+            for i in self.unit['ref_calls'].get(nm0, ()):
+                o = n['inner'][1:][i]
+                while o['kind'] in TRANSPARENT:
+                    o = o['inner'][0]
+                acc.add('v_' + o['referencedDecl']['name'] if o['kind'] == 'DeclRefExpr' else 'st' if self._is_this_lhs(o) else '?')
         if k == 'CallExpr' and self.unit.get('out_calls'):
             c0 = n['inner'][0]
             while c0['kind'] in TRANSPARENT:
@@ -556,6 +677,15 @@ class Tr:
                 while o['kind'] in TRANSPARENT:
                     o = o['inner'][0]
                 acc.add('v_' + o['referencedDecl']['name'] if o['kind'] == 'DeclRefExpr' else '?')
+        if k == 'CXXOperatorCallExpr' and len(n.get('inner', [])) == 3:
+            # proxy element assignment  v[k] = e  (std::vector<bool>): counts as an assignment to the object holding v  (C18)
+            c0 = n['inner'][0]
+            while c0['kind'] in TRANSPARENT:
+                c0 = c0['inner'][0]
+            if (c0.get('referencedDecl') or {}).get('name') == 'operator=':
+                px = self._proxy_elem(n['inner'][1])
+                if px is not None:
+                    acc.add('st' if px[0]['kind'] == 'MemberExpr' else 'v_' + px[0]['referencedDecl']['name'])
         if k == 'CXXMemberCallExpr' and qt(n) == 'void':
             b = n['inner'][0]['inner'][0]
             while b['kind'] in TRANSPARENT:
@@ -582,6 +712,19 @@ class Tr:
     def for_stmt(self, s, cont):
         """canonical counted loop  for (T i = a; i < b; i++ / ++i) body   with no return/break inside"""
         init, _, cond, inc, body = s['inner']
+        if init and init.get('kind') == 'DeclStmt' and len(init['inner']) > 1 and all(d.get('kind') == 'VarDecl' and d.get('inner') for d in init['inner']):
+            # for (T i = a, e = b; i < e; ++i): the further declarations are bound once, before the loop (C20 Centroid::addHole);
+            # formerly Unsupported('for-init')
+            extra = init['inner'][1:]
+            s2 = dict(s); s2['inner'] = [dict(init, inner=[init['inner'][0]])] + list(s['inner'][1:])
+            binds = []
+            for d in extra:
+                self.locals.add(d['name'])
+                binds.append((d['name'], self.expr(d['inner'][0])))
+            txt = self.for_stmt(s2, cont)
+            for nm_, e_ in reversed(binds):
+                txt = '(let v_%s := %s in\n %s)' % (nm_, e_, txt)
+            return txt
         if not (init and init.get('kind') == 'DeclStmt' and len(init['inner']) == 1 and init['inner'][0].get('inner')):
             raise Unsupported('for-init')
         iv = init['inner'][0]; ivn = 'v_' + iv['name']
@@ -605,7 +748,12 @@ class Tr:
             i2 = i2['inner'][0]
         if not (i2['kind'] == 'UnaryOperator' and i2['opcode'] == '++'):
             raise Unsupported('for-inc')
-        if self.has_return(body):
+        def _has_kind(n, kinds):
+            return n.get('kind') in kinds or any(_has_kind(c, kinds) for c in n.get('inner', []) if isinstance(c, dict))
+        # `continue` as the only jump inside a counted for (C20 Centroid::addLineSegments; formerly Unsupported): the fold body
+        # yields the loop-carried tuple at the `continue`
+        only_continue = _has_kind(body, ('ContinueStmt',)) and not _has_kind(body, ('ReturnStmt', 'BreakStmt', 'CXXThrowExpr'))
+        if self.has_return(body) and not only_continue:
             # search loop: `return` inside a counted for whose body assigns no outer variable (no break / continue / throw):
             #   match fold_left (fun acc i => match acc with Some _ => acc | None => BODY end) (zrange lo hi) None with Some r => r | None => REST end
             # BODY yields (Some result) at a `return` and None where control reaches the end of the body
@@ -631,7 +779,11 @@ class Tr:
             return cont()
         tup = '(%s)' % ', '.join(asg) if len(asg) > 1 else asg[0]
         pat = "'" + tup if len(asg) > 1 else tup
-        bodytxt = self.stmts([body], lambda: tup)
+        self.__dict__.setdefault('loop_tups', []).append(tup)
+        try:
+            bodytxt = self.stmts([body], lambda: tup)
+        finally:
+            self.loop_tups.pop()
         return ('(let %s := fold_left (fun acc %s => let %s := acc in\n %s) (zrange %s %s) %s in\n %s)'
                 % (pat, ivn, pat, bodytxt, lo, hi, tup, cont()))
 
@@ -669,6 +821,20 @@ class Tr:
                 self.collect_locals(c)
 
     def run(self, gname):
+        if self.unit.get('ctor_base_init'):
+            # unit option ctor_base_init (C15): the unit is a constructor; the generated definition is the tuple of the
+            # arguments its mem-initializer list passes to the BASE-class constructor (e.g. the bounds a branch node takes)
+            inits = [c for c in self.fn['inner'] if c['kind'] == 'CXXCtorInitializer' and c.get('baseInit')]
+            if len(inits) != 1:
+                raise Unsupported('ctor_base_init: expected exactly one base initializer')
+            e = inits[0]['inner'][0]
+            while e['kind'] in TRANSPARENT:
+                e = e['inner'][0]
+            if e['kind'] != 'CXXConstructExpr':
+                raise Unsupported('ctor_base_init: ' + e['kind'])
+            args = [self.expr(a) for a in e.get('inner', [])]
+            ps = ''.join(' (v_%s : _)' % p['name'] for p in self.params)
+            return 'Definition %s%s :=\n (%s).\n' % (gname, ps, ', '.join(args))
         self.collect_locals(self.body)
         body = self.stmts([self.body], lambda: self.ret(self.dflt))
         def coqtype(p):
@@ -680,7 +846,7 @@ class Tr:
                 return 'Z'
             return '_'
         ps = ''.join(' (v_%s : %s)' % (p['name'], coqtype(p)) for p in self.params)
-        st = ' (st : _)' if (self.uses_this or self.isvoid) else ''
+        st = ' (st : _)' if (self.uses_this or (self.isvoid and not self.unit.get('returns_param'))) else ''
         if self.selfrec:
             K = self.unit.get('fuel', 2)
             stargs = ' st' if st else ''
@@ -828,6 +994,9 @@ def translate_unit(name, unit, repo, outdir, builddir):
         hdr.append('Section Virtuals.')
         for vn, vt in virt.items():
             hdr.append('Variable %s : %s.' % (vn, vt))
+        for al, target in unit.get('section_aliases', {}).items():
+            # unit option section_aliases (C20): aliases that mention the Section variables (a callee unit applied to them)
+            hdr.append('Notation %s := %s (only parsing).' % (al, target))
         body = body + 'End Virtuals.\n'
     txt = '\n'.join(hdr) + '\n' + body
     os.makedirs(outdir, exist_ok=True)
